@@ -64,11 +64,12 @@ CLAIMED = {
              "client / server model contains a panic observation, for every op sequence whose clock stays below 2^35 ms "
              "(hypothesis shown necessary by the late-panic witnesses = known finding timer-wheel lag); "
              "C16_span_deadline_never_panics — the rpc.deadline span field renders for every deadline, tied to the "
-             "translated facts that the source uses checked_add and caps at year 9999.",
+             "translated facts that the source uses checked_add and caps at year 9999; C16_stub_never_panics — a "
+             "macro-generated client method returns for every well-formed answer of the peer (own variant, another method's "
+             "variant, server error), tied to the translated shape of its fallback arm and to the c16stub family.",
         note="Trusted: Lean kernel; axioms propext/Classical.choice/Quot.sound; translator flags; harness + ./check. Absence "
              "of panics inside serde_json / bincode / LengthDelimitedCodec / tracing subscribers is tested, not proved. "
-             "Known finding (open): an idle DelayQueue older than 2^36 ms panics on insert (tokio-util). The macro-generated "
-             "client's unreachable!() on a wrong response variant is outside the property's anchors (noted in DESIGN.md).",
+             "Known finding (open): an idle DelayQueue older than 2^36 ms panics on insert (tokio-util).",
         technique="Lean 4 totality/no-panic proof tied to translated source facts + robustness differential runs under catch_unwind",
         design="8/C16"),
     "C17": dict(
